@@ -20,11 +20,12 @@ from ..repo import AnalysisError, attr_chain, norm, walk_no_nested
 LEVEL = "other"
 TECHNIQUE = ("regex-literal analysis (re._parser) against the XML 1.0 productions parsed from their textual form; "
              "writer/reader agreement of the escape format; def-use of configuration flags")
-CLAIM = ("For every BMP code point, the frozen regular expressions classify it as illegal in a name (first / non-first "
-         "position) exactly when the XML 1.0 productions say so; the escape sequence written for an illegal character is "
-         "matched and decoded by the reader, has fixed width and uses only characters legal in names; the pubid class is "
-         "production [13]; every flag the constructor stores has an effect; comment coercion ends with no '--' and no "
-         "trailing '-'.")
+CLAIM = ('For every BMP code point, the frozen regular expressions classify it as illegal in a name (first / '
+         'non-first position) exactly when the XML 1.0 productions say so; the escape sequence written for an '
+         'illegal character is matched and decoded by the reader, has fixed width and uses only characters '
+         'legal in names; the pubid class is production [13]; every flag the constructor stores has an effect; '
+         "comment coercion ends with no '--' and no trailing '-'. Every exit of toXmlName has applied the "
+         'first-character class to the first character and the name class to the rest.')
 NOT_DECIDED = ("acceptance by expat, non-BMP characters, injectivity for names that already contain an escape pattern "
                "(excluded by the statement).")
 MODULES = ["_ihatexml.py"]
@@ -276,6 +277,7 @@ def thorough(ctx):
 def mutants():
     from ..selftest import TextMutant as T
     return [
+        T("toxmlname-fastpath", REL, "    def toXmlName(self, name):\n        nameFirst = name[0]", "    def toXmlName(self, name):\n        if not nonXmlNameBMPRegexp.search(name):\n            return name\n        nameFirst = name[0]", "R20.4"),
         T("regex-range-edit", REL, "nonXmlNameBMPRegexp = re.compile('[\\x00-,/:-@", "nonXmlNameBMPRegexp = re.compile('[\\x00-,/;-@", "R20.1"),
         T("first-regex-edit", REL, "nonXmlNameFirstBMPRegexp = re.compile('[\\x00-@", "nonXmlNameFirstBMPRegexp = re.compile('[\\x00-?", "R20.1"),
         T("pubid-percent", REL, "0-9\\\\-'()+,./:=?;!*#@$_%]", "0-9\\\\-'()+,./:=?;!*#@$_]", "R20.2"),
